@@ -748,6 +748,8 @@ def build_reference(sources):
         fns['__functions__'] = allq
         fns['__nested__'] = nested
         fns['__params__'] = dict((qual, [x.arg for x in fn.args.args]) for qual, fn in outer_functions(tree))
+        fns['__globals__'] = sorted(set(t.id for st in tree.body if isinstance(st, (ast.Assign, ast.AugAssign, ast.AnnAssign))
+                                        for t in ast.walk(st) if isinstance(t, ast.Name) and isinstance(t.ctx, ast.Store)))
         out[rel] = fns
     return out
 
